@@ -33,9 +33,13 @@ class _DaskRewrite(ast.NodeTransformer):
                 kw = [ast.keyword(arg=None, value=rest[2])] if len(rest) == 3 else []
                 return ast.Call(func=rest[0], args=[ast.Starred(value=rest[1], ctx=ast.Load())], keywords=kw)
             if gname == '_apply_with_args' and len(rest) == 4 and not n.keywords:
-                return ast.Call(func=rest[0], args=[ast.Starred(value=ast.BinOp(left=rest[1], op=ast.Add(), right=rest[2]), ctx=ast.Load())],
+                return ast.Call(func=rest[0], args=[ast.Starred(value=rest[1], ctx=ast.Load()), ast.Starred(value=rest[2], ctx=ast.Load())],
                                 keywords=[ast.keyword(arg=None, value=rest[3])])
             return ast.Call(func=g, args=list(rest), keywords=n.keywords)
+        if any(isinstance(a, ast.Starred) for a in n.args):
+            # f(*(x + extra)) = f(*x, *extra) = f(*(*x, *extra))
+            from .flow import flat_positional_nodes
+            return ast.Call(func=n.func, args=flat_positional_nodes(n.args), keywords=n.keywords)
         return n
 
     def visit_Attribute(self, n):
